@@ -748,8 +748,16 @@ func termSize(t *Term) int {
 // groundTerms collects candidate instantiation terms of Int sort occurring as
 // array indices or UF arguments (used for hand instantiation of quantified
 // hypotheses).
+// refVars: names of variables that stand for object references (never useful
+// as instances of integer binders).
+var refVars = map[string]bool{}
+
+func isRefVar(t *Term) bool {
+	return t.Op == "var" && (refVars[t.Name] || strings.HasPrefix(t.Name, "new!") || strings.HasPrefix(t.Name, "brk"))
+}
+
 func addIndexCand(ix *Term, out map[string]*Term, bound map[string]int) {
-	if ix.S.K != SInt || !closed(ix, bound) {
+	if ix.S.K != SInt || !closed(ix, bound) || isRefVar(ix) {
 		return
 	}
 	out[ix.String()] = ix
@@ -764,10 +772,31 @@ func addIndexCand(ix *Term, out map[string]*Term, bound map[string]int) {
 	}
 }
 
+// objectHeap: the array is indexed by object references (field heaps, version
+// maps), whose indices are never useful instances for integer binders.
+func objectHeap(a *Term) bool {
+	for a.Op == "store" {
+		a = a.Args[0]
+	}
+	if a.Op != "var" {
+		return false
+	}
+	n := a.Name
+	for _, p := range []string{"$H!", "hvH!", "ukH!", "evH!", "absver", "ghghost!absver", "$M!", "hvM!", "ukM!", "evM!", "$S!", "$MP!", "$MV!"} {
+		if strings.HasPrefix(n, p) {
+			// element memories ($M, $S) are reference-indexed at the outer level only
+			return true
+		}
+	}
+	return false
+}
+
 func indexTerms(t *Term, out map[string]*Term, bound map[string]int) {
 	switch t.Op {
 	case "select", "store":
-		addIndexCand(t.Args[1], out, bound)
+		if !objectHeap(t.Args[0]) {
+			addIndexCand(t.Args[1], out, bound)
+		}
 	case "mod", "div":
 		if t.Args[0].S.K == SInt && closed(t.Args[0], bound) {
 			out[t.Args[0].String()] = t.Args[0]
